@@ -83,6 +83,10 @@ type Conn struct {
 	wdl    time.Duration
 	local  addr
 	remote addr
+	// ClosedSeq / ClosedVT: event sequence number and virtual time at which
+	// this endpoint was closed (0 / -1 while open).
+	ClosedSeq int64
+	ClosedVT  time.Duration
 	// ReadErr, if non-nil, is returned by the next Read (one shot).
 	ReadErr error
 	// Stats
@@ -223,6 +227,8 @@ func (c *Conn) Close() error {
 func (c *Conn) closeInternal(rst bool) {
 	s := c.n.s
 	c.closed = true
+	c.ClosedSeq = s.Stamp()
+	c.ClosedVT = s.Now()
 	c.wr.wclosed = true
 	if rst {
 		c.wr.reset = true
